@@ -295,6 +295,11 @@ func genField(rng *rand.Rand, sb *strings.Builder, class string, s, f int, gener
 		// the annotation spread over two trailing block comments
 		h := 1 + rng.Intn(len(inject)-1)
 		sb.WriteString(" /* " + prefix + "@tag " + kvString(inject[:h], " ") + " */ /* @tag " + kvString(inject[h:], " ") + " */\n")
+	} else if (class == "G3" || class == "G6") && len(inject) >= 2 && rng.Intn(5) == 0 {
+		// the marker repeated inside ONE comment (the one-marker-per-pair habit of protoc-go-inject-tag):
+		// every pair after the first marker counts
+		h := 1 + rng.Intn(len(inject)-1)
+		sb.WriteString(" // " + prefix + "@tag " + kvString(inject[:h], " ") + " @tag " + kvString(inject[h:], " ") + trail + "\n")
 	} else if class == "G6" && rng.Intn(4) == 0 {
 		// a first trailing comment WITHOUT @tag, then the annotation in a second one
 		sb.WriteString(" /* 备注 note */ /* " + prefix + "@tag " + kvString(inject, " ") + " */\n")
